@@ -20,3 +20,13 @@ func VerifSetTimeouts(start, stop time.Duration) {
 	moduleStartTimeout = start
 	moduleStopTimeout = stop
 }
+
+// VerifRepeat is Task.Repeat without the minimum interval of one minute.
+func VerifRepeat(t *Task, interval time.Duration) {
+	t.lock.Lock()
+	defer t.lock.Unlock()
+
+	t.repeat = interval
+	t.executeAt = time.Now().Add(t.repeat)
+	t.addToSchedule(false)
+}
